@@ -31,6 +31,24 @@ Definition judge (t : tree) : option (list Z) :=
       else Some [2; 2]
     | _ => Some [2; 3]
     end
+  (* Bitstring::random: two positions jointly - four equally likely combinations (C18_collection_iid: the bits are
+     independent draws of the element generator) *)
+  | L [L [_; _; L [A 10; A size; _; _]]; o] =>
+    match o with
+    | L [A len; _] => if len =? size then Some (4 :: 0 :: enc_law [(0, 1 # 4); (1, 1 # 4); (2, 1 # 4); (3, 1 # 4)]) else Some [2; 2]
+    | _ => Some [2; 3]
+    end
+  (* Bitstring::random_with_probability: every bit of every draw is set with the requested probability *)
+  | L [L [_; _; L [A 11; A size; A num; A den]]; o] =>
+    if (den <=? 0) || (num <? 0) || (den <? num) then None else
+    match o with
+    | L [A len; _] =>
+      if len =? size
+      then Some (4 :: 0 :: enc_law (filter (fun cq => negb (Qeq_bool (snd cq) 0))
+                                           [(0, Qred (Qmake (den - num) (Z.to_pos den))); (1, Qred (Qmake num (Z.to_pos den)))]))
+      else Some [2; 2]
+    | _ => Some [2; 3]
+    end
   | L [L [_; _; L [A 7; _; A members]]; o] =>
     (* `members` zero-sized members: rejected exactly when there are none, otherwise num_choices = members *)
     Some [match o with
